@@ -4,3 +4,8 @@ import CruxVerif.Props.C03
 #print axioms Props.C03.events_fifo_once
 #print axioms Props.C03.emission_fifo
 #print axioms Props.C03.all_applied_at_return
+#print axioms Props.C03.history_append_only
+#print axioms Props.C03.waiting_events_applied_first_in_order
+#print axioms Props.C03.shell_event_applied_first
+#print axioms Props.C03.channel_empty_between_calls
+#print axioms Props.C03.applied_events_never_revised
